@@ -10,7 +10,9 @@ import (
 	"github.com/openfga/language/pkg/go/zzverif"
 )
 
-const verifIdent = "ab_.-" // letters and the punctuation that may continue a name
+const verifIdent = "aet_.-" // letters (two of them occur in the keywords) and the punctuation that may continue a name
+
+var verifSeps = []string{" ", "  ", "\t"}
 
 var verifIndents = []string{"", " ", "\t", "  ", "\t "} // the grammar admits blanks and tabs
 
@@ -21,7 +23,9 @@ func verifDeclLines(kw string, nameLen int, tails []string) (names []string, lin
 		indent := verifIndents[zzverif.Choose("indent", len(verifIndents))]
 		tail := tails[zzverif.Choose("tail", len(tails))]
 		names = append(names, nm)
-		lines = append(lines, indent+kw+" "+nm+tail)
+		// the grammar admits any run of blanks and tabs between the keyword(s) and the name
+		sep := verifSeps[zzverif.Choose("separator", len(verifSeps))]
+		lines = append(lines, indent+strings.ReplaceAll(kw, " ", sep)+sep+nm+tail)
 	}
 	return
 }
@@ -71,7 +75,11 @@ func VerifC16_RelationLine() {
 func VerifC16_Column() {
 	nm := zzverif.Str("name", 1, zzverif.Param("N", 2), verifIdent)
 	indent := strings.Repeat(" ", zzverif.Choose("indent", 4))
-	line := indent + "type " + nm
+	kws := []string{"type", "extend type", "define", "condition"}
+	kw := kws[zzverif.Choose("keyword", len(kws))]
+	sep := verifSeps[zzverif.Choose("separator", len(verifSeps))]
+	line := indent + kw + sep + nm + []string{"", ": a", "(x: int) {", " # t"}[zzverif.Choose("tail", 4)]
+	nameAt := len(indent) + len(kw) + len(sep)
 	other := "type " + zzverif.Str("other", 1, 2, verifIdent)
 	lines := []string{other, line}
 	l, c := ConstructLineAndColumnData(lines, 1, nm)
@@ -81,6 +89,7 @@ func VerifC16_Column() {
 	if c.Start >= 0 && c.End <= len(line) {
 		zzverif.Assert(line[c.Start:c.End] == nm, "column-range-covers-the-name")
 	}
+	zzverif.Assert(c.Start == nameAt, "column-is-where-the-declared-name-stands")
 	l0, c0 := ConstructLineAndColumnData(lines, -1, nm)
 	zzverif.Assert(l0.Start == 0 && l0.End == 0 && c0.Start == 0 && c0.End == 0, "unknown-line-gives-zero")
 	zzverif.Reach("column")
